@@ -138,6 +138,12 @@ def step (s : S) (line : String) : S × String :=
     | some (h, true, v) => ({ s with heap := h }, s!"ok {v}")
     | some (h, false, v) => ({ s with heap := h }, s!"eod {v}")
     | none => fault s
+  | "hpop" :: _ =>
+    -- `esl_heap_IExtractTop(hp, NULL)`: as written, the empty-heap branch stores through the NULL pointer
+    match Heap.extractTopNull s.heap with
+    | some (h, true) => ({ s with heap := h }, s!"ok {h.data.size}")
+    | some (h, false) => ({ s with heap := h }, s!"eod {h.data.size}")
+    | none => fault s
   | "hdrain" :: _ =>
     match Heap.drain s.heap.data.size s.heap with
     | some l => ({ s with heap := { s.heap with data := #[] } }, "ok " ++ showInts l)
